@@ -83,6 +83,9 @@ pub enum CoordClass {
     Huge,
     /// small magnitudes with points a few f32 ulps apart (distinct but nearly equal)
     NearDup,
+    /// a polyline running many times between far-apart points and ending in a very short segment
+    /// (cumulative length ~1e7 times the last segment)
+    ZigZag,
 }
 
 fn gen_coord(t: &mut Tape, class: CoordClass) -> (f32, f32) {
@@ -94,6 +97,7 @@ fn gen_coord(t: &mut Tape, class: CoordClass) -> (f32, f32) {
         CoordClass::Collinear => (0.0, 0.0), // filled by the caller
         CoordClass::Huge => (t.int(-262144, 262144) as f32, t.int(-262144, 262144) as f32),
         CoordClass::NearDup => (t.int(-2, 2) as f32, t.int(-2, 2) as f32),
+        CoordClass::ZigZag => (0.0, 0.0), // built by the caller
     }
 }
 
@@ -106,7 +110,7 @@ pub fn gen_points(t: &mut Tape, max_points: usize, allow_huge: bool) -> (Vec<Pat
 /// `allow_near`: also generate points that are distinct but only a few f32 ulps (>= 1e-8) apart
 pub fn gen_points_ex(t: &mut Tape, max_points: usize, allow_huge: bool, allow_near: bool) -> (Vec<PathControlPoint>, CoordClass) {
     let n = 1 + t.below(max_points);
-    let class = match t.weighted(&[3, 4, 3, 2, 2, 2, if allow_huge { 1 } else { 0 }, if allow_near { 1 } else { 0 }]) {
+    let class = match t.weighted(&[3, 4, 3, 2, 2, 2, if allow_huge { 1 } else { 0 }, if allow_near { 1 } else { 0 }, if allow_huge { 1 } else { 0 }]) {
         0 => CoordClass::TinyGrid,
         1 => CoordClass::Screen,
         2 => CoordClass::Quarter,
@@ -114,8 +118,23 @@ pub fn gen_points_ex(t: &mut Tape, max_points: usize, allow_huge: bool, allow_ne
         4 => CoordClass::Dups,
         5 => CoordClass::Collinear,
         6 => CoordClass::Huge,
-        _ => CoordClass::NearDup,
+        7 => CoordClass::NearDup,
+        _ => CoordClass::ZigZag,
     };
+    if class == CoordClass::ZigZag {
+        // linear (or Bezier-of-two-points) runs between two far corners, then one short last segment
+        let far = *t.pick(&[131072.0f32, 100000.0, 65536.0]);
+        let runs = 20 + t.below(30);
+        let (a, b) = (Pos::new(-far, -far + t.int(0, 64) as f32), Pos::new(far, far - t.int(0, 64) as f32));
+        let mut pts: Vec<PathControlPoint> = (0..runs)
+            .map(|i| PathControlPoint { pos: if i % 2 == 0 { a } else { b }, path_type: if i == 0 { Some(PathType::LINEAR) } else { None } })
+            .collect();
+        let last = pts.last().unwrap().pos;
+        let d = *t.pick(&[1.0f32, 1.0, 2.0, 0.5, 3.0]);
+        let (dx, dy) = *t.pick(&[(1.0f32, 0.0f32), (0.0, 1.0), (-1.0, 0.0), (0.0, -1.0)]);
+        pts.push(PathControlPoint { pos: Pos::new(last.x + dx * d, last.y + dy * d), path_type: None });
+        return (pts, class);
+    }
     let mut pts: Vec<PathControlPoint> = Vec::with_capacity(n);
     let (bx, by) = (t.int(0, 512) as f32, t.int(0, 384) as f32);
     let (dx, dy) = (t.int(-8, 8) as f32, t.int(-8, 8) as f32);
